@@ -677,9 +677,14 @@ req0_ctx_cancel_send(nni_aio *aio, void *arg, nng_err rv)
 
 	nni_mtx_lock(&s->mtx);
 	if (ctx->send_aio == aio) {
-		// There should not be a pending reply, because we canceled
-		// it while we were waiting.
-		NNI_ASSERT(ctx->recv_aio == NULL);
+		nni_aio *raio;
+		// A receive may have been submitted after this send, while
+		// the request was still waiting for a pipe.  The request is
+		// being withdrawn, so that receive can never be satisfied.
+		if ((raio = ctx->recv_aio) != NULL) {
+			ctx->recv_aio = NULL;
+			nni_aio_finish_error(raio, rv);
+		}
 		ctx->send_aio = NULL;
 		// Restore the message back to the aio.
 		nni_aio_set_msg(aio, ctx->req_msg);
